@@ -348,6 +348,31 @@ def run_case(spec):
         if bad_p:
             viol.append(V(site + '.pair_distance', 'output_differs', 'pair_distance(index pairs) differs from the formed pairs for %d small index-pair '
                           'arrays (%s preprocessor)' % (bad_p, pk), [pk, 'small_index_arrays']))
+    # ---- a table that also holds rows nobody refers to, with missing values (NaN) and an infinity in them
+    if pk in ('ndarray', 'list'):
+        junk = np.full((2, ds.d), np.nan)
+        junk[1, 0] = np.inf
+        tbl = np.vstack([table, junk])
+        pre_n = tbl.copy() if pk == 'ndarray' else tbl.tolist()
+        try:
+            e_n = zoo.make(name, ds, preprocessor=pre_n).fit(*index_args)
+            evals += 1
+            sigs.add((name, pk, 'unreferenced_nan_rows'))
+            if not same(e_n.components_, est_f0.components_):
+                viol.append(V(site + '.fit', 'fitted_attribute', 'a %s preprocessor with NaN / inf in rows that no indicator refers to gives another '
+                              'model than the formed data' % pk, [pk, 'unreferenced_nan_rows']))
+            qn = np.array([0, 3, 1])
+            if not same(e_n.transform(qn), est_f0.transform(table[qn])):
+                viol.append(V(site + '.transform', 'output_differs', 'transform on indices differs from the formed points (%s preprocessor with NaN in '
+                              'unreferenced rows)' % pk, [pk, 'unreferenced_nan_rows']))
+            e_n2 = zoo.make(name, ds, preprocessor=pre_n).fit(*formed_args)         # formed data: the table is not consulted at all
+            if not same(e_n2.components_, est_f0.components_):
+                viol.append(V(site + '.fit', 'fitted_attribute', 'fit on formed data depends on the content of the (unused) preprocessor table',
+                              [pk, 'unreferenced_nan_rows']))
+            evals += 2
+        except Exception as ex:
+            viol.append(V(site + '.fit', 'index_fit_raises', 'a %s preprocessor with NaN / inf in rows that no indicator refers to made fit / transform '
+                          'raise %s: %s' % (pk, type(ex).__name__, str(ex)[:120]), [pk, 'unreferenced_nan_rows']))
     # ---- history: a nested-list preprocessor edited IN PLACE between two fits of the same estimator
     if pk == 'list':
         lst = table.tolist()
